@@ -24,7 +24,7 @@ LEVEL = "exploration"
 RULE = ("scenario = NDJSON byte stream of 1..12 lines (valid messages and junk of each class) x cut positions (seeded, 1-byte, "
         "targeted inside UTF-8 sequences / CRLF / after LF, plus a systematic sweep of every single cut of fixed base streams) x burst timing; "
         "non-trivial = at least one cut fell strictly inside a line, or a junk line preceded a valid one")
-PROBES = ["cut_inside_utf8_sequence", "cut_inside_crlf", "cut_right_after_lf", "junk_before_valid", "one_byte_chunks",
+PROBES = ["legacy_request_stream_registered", "legacy_request_stream_abandoned", "burst_over_100_lines_in_one_read", "cut_inside_utf8_sequence", "cut_inside_crlf", "cut_right_after_lf", "junk_before_valid", "one_byte_chunks",
           "line_separator_chars_in_payload"]
 PROBES_THOROUGH = ["read_capped_at_max_bytes"]
 TIERS = {"quick": {"runs": 15000, "wall": 45.0}, "thorough": {"runs": 1000000, "wall": 560.0}}
@@ -133,9 +133,16 @@ def generate(rng: random.Random, tier: str) -> dict:
         filler = rng.choice(["é", "€", "\U0001F600"]) * rng.choice([30000, 40000])
         lines.insert(rng.randrange(0, len(lines) + 1), {"kind": "notification", "term": "\n", "text": json.dumps(
             {"jsonrpc": "2.0", "method": "notifications/message", "params": {"data": "x" * rng.randrange(0, 4) + filler}}, ensure_ascii=False)})
+    burst = 0
+    if rng.random() < (0.04 if big else 0.02):
+        # more lines than the read stream buffers (100), all available to a single read
+        burst = rng.choice([120, 250, 400])
+        at = rng.randrange(0, len(lines) + 1)
+        lines[at:at] = [{"kind": "notification", "term": "\n", "text": json.dumps(
+            {"jsonrpc": "2.0", "method": "notifications/message", "params": {"seq": q}})} for q in range(burst)]
     data = stream_bytes(lines)
     L = len(data)
-    strategy = rng.choice(["whole", "random", "random", "one_byte", "targeted", "targeted", "per_line"])
+    strategy = rng.choice(["whole", "random", "random", "one_byte", "targeted", "targeted", "per_line"]) if not burst else rng.choice(["whole", "whole", "random"])
     cuts = []
     if strategy == "random":
         cuts = sorted(set(rng.randrange(1, L) for _ in range(rng.choice([1, 2, 3, 5, 10])))) if L > 1 else []
@@ -159,7 +166,12 @@ def generate(rng: random.Random, tier: str) -> dict:
         _, _, a = _targeted_cuts(data)
         cuts = a
     gap = rng.choice([0, 0, 1, 5, 100])
-    return {"v": 1, "lines": lines, "cuts": cuts, "gap": gap, "hops": rng.choice([0, 0, 2]),
+    legacy = []
+    if rng.random() < 0.25:
+        for i, ln in enumerate(lines):
+            if ln["kind"] in ("response", "error") and rng.random() < 0.6:
+                legacy.append({"line": i, "close": rng.random() < 0.5})
+    return {"v": 1, "legacy_streams": legacy, "lines": lines, "cuts": cuts, "gap": gap, "hops": rng.choice([0, 0, 2]),
             "protocol_version": rng.choice([None, None, "2025-06-18", "2025-03-26"])}
 
 
@@ -194,6 +206,8 @@ SHRINK_LISTS = ["lines", "cuts"]
 
 
 def simplify(scn):
+    if scn.get("legacy_streams"):
+        c = copy.deepcopy(scn); c["legacy_streams"] = []; yield c
     if scn["gap"]:
         c = copy.deepcopy(scn); c["gap"] = 0; yield c
     if scn["hops"]:
@@ -284,6 +298,19 @@ def execute(scn: dict) -> dict:
                 client.set_protocol_version(scn["protocol_version"])
             async with client:
                 read_stream, _write = client.get_streams()
+                # legacy API: a one-shot per-request stream registered for some response ids; it may be abandoned (closed)
+                # before the response arrives - the main read stream must deliver the response either way
+                st["legacy"] = []
+                for lg in scn.get("legacy_streams", []):
+                    if lg["line"] < len(scn["lines"]) and "text" in scn["lines"][lg["line"]]:
+                        try:
+                            rid_ = json.loads(scn["lines"][lg["line"]]["text"]).get("id")
+                        except Exception:
+                            continue
+                        rs = client.new_request_stream(str(rid_))
+                        if lg["close"]:
+                            rs.close()
+                        st["legacy"].append((rid_, lg["close"], rs))
 
                 async def drain(stream, into):
                     async for m in stream:
@@ -330,6 +357,10 @@ def execute(scn: dict) -> dict:
         out["faults"]["short_read"] = out["faults"].get("short_read", 0) + len(cuts)
     if len(cuts) >= len(data) - 1 and len(data) > 2:
         probe("one_byte_chunks")
+    for (_rid, closed_, _rs) in st.get("legacy", []):
+        probe("legacy_request_stream_abandoned" if closed_ else "legacy_request_stream_registered")
+    if len(scn["lines"]) > 110 and len(cuts) <= 12:
+        probe("burst_over_100_lines_in_one_read")
     if any(ch in data.decode("utf-8", "ignore") for ch in ("\u0085", " ", " ")):
         probe("line_separator_chars_in_payload")
     first_valid = min((i for (i, _o) in exp), default=None)
